@@ -393,8 +393,8 @@ theorem modes_sim_loadModel {m : DebugTrail} (hm : m ≠ .all) (s : Bool) (cls :
   unfold loadModel
   split
   · exact modes_sim_bindO
-      (modes_sim_seq hm (modes_itemsRel_model (fun _ => modes_sim_refl _ _) (fun _ => modes_sim_refl _ _)
-        _ _ _ _ _ _ fun f _ v _ => h f v))
+      (modes_sim_seq hm (modes_itemsRel_model _ _ _ _ (fun _ => modes_sim_refl _ _) (modes_sim_refl _ _)
+        _ _ fun f _ v _ => h f v))
       fun _ => modes_sim_refl _ _
   · have : Sim m (Outcome.err (α := Val) (LErr.leaf "TypeLoadError" d))
         (.err (LErr.agg [LErr.leaf "TypeLoadError" d])) :=
